@@ -55,7 +55,7 @@ PROPS = {
                 "patterns, positions from a palette of 2..8 points (real WGS-84 inverse distances for every ordered pair are sent as the model's oracle), "
                 "with/without acceleration and OBD columns, option sets (track, vehicle override, tags, note, positioning, differential status, start date); "
                 "non-trivial = at least one converted lap; distinct by SHA-1",
-        "trusted_base": KERNEL + TIE + ["tidwall/geodesic Inverse is a parameter of the model (its real results are the oracle table)",
+        "trusted_base": KERNEL + TIE + ["the geodesic library's Inverse is a parameter of the model (its real results are the oracle table); that its results are the true distances is checked separately, on two-fix laps, against bounds from an independent great-circle angle and the ellipsoid's radii of curvature (clause cv.true_distance; recorded finding at latitude 45.0000000)",
                                         "math.Round / float64 arithmetic: Lean Float (host IEEE-754) in the correspondence, exact rationals in theorems"],
         "assumptions": ["theorems quantify over an arbitrary inverse function and an arbitrary numeric structure (CNum); float rounding is not modelled in theorems",
                         "sessions are produced by the real decoder from generated logs (shapes the decoder cannot produce are not exercised)"],
